@@ -66,7 +66,9 @@ void World::auditI2()
         for (EdgeSlot* e : edges) {
             if (e->forest != int(fi) || !e->oracle || !e->tab.exact()) continue;
             // EV*: identity of edges is claimed only where float arithmetic is exact
-            if (F.kind() == FK_EVT && !e->tab.pow2()) continue;
+            // and the edge was not produced by arithmetic (intermediate values of
+            // (f+g)-g are not powers of two even when the result is)
+            if (F.kind() == FK_EVT && (!e->tab.pow2() || !e->fexact)) continue;
             es.push_back(e);
         }
         for (size_t i = 0; i < es.size(); i++) {
